@@ -605,7 +605,12 @@ func (c *cbComp) Run(h *hlib.History) ([]hlib.Mon, bool) {
 			if tripped {
 				expT++
 				log = nil
-				shadow.Reset()
+				// a brand-new metrics object, not Reset(): the oracle must not inherit a faulty reset
+				if fresh, ferr := memmetrics.NewRTMetrics(); ferr == nil {
+					shadow = fresh
+				} else {
+					shadow.Reset()
+				}
 				shieldOn, shieldEnd = true, now+fb
 				inRec = false
 			}
